@@ -465,6 +465,11 @@ func (c *Conn) loadSession(hello *clientHelloMsg) (
 			return nil, nil, nil, nil
 		}
 		// [UTLS SECTION START]
+		if !c.config.InsecureSkipTimeVerify && c.config.time().Before(session.peerCertificates[0].NotBefore) {
+			// The original connection had InsecureSkipTimeVerify and accepted a
+			// certificate that is not yet valid, while this one verifies time.
+			return nil, nil, nil, nil
+		}
 		var dnsName string
 		if len(c.config.InsecureServerNameToVerify) == 0 {
 			dnsName = c.config.ServerName
